@@ -211,6 +211,10 @@ def _enum_job(job):
             res.append((TOK, _agree(o2, obs), f"as_identifier: {obs}"))
             if not _agree(o2, obs):
                 obs = o2
+        elif not direct and length >= 5 and (n % 8 == 0 or obs[0] in NUM):
+            # the same clause where every text goes through hy.read_many anyway (keeps the obligation present in both tiers)
+            od = observe_direct(t)
+            res.append((TOK, _agree(obs, od), f"as_identifier: {od}"))
         for cls, ok, exp in res:
             a = agg.get(cls)
             if a is None:
